@@ -503,7 +503,22 @@ def well_formed1(classes, p, t):
         return len(p[1]) == len(d[1]) and all(well_formed1(classes, x, tt) for x, (_, tt) in zip(p[1], d[1]))
     fs = dict(d[1])
     names = [f for f, _ in p[1]]
-    return sorted(names) == sorted(fs) and all(well_formed1(classes, x, fs[f]) for f, x in p[1])
+    # LENIENT: a field may be named twice (conjunction of both sub-patterns - what the lowered code
+    # tests); the checker reports that as an error since fix 76a01ae, and the oracle only looks at
+    # such a case when the checker reported no error at all (see `oracle`)
+    ok = sorted(set(names)) == sorted(fs) if LENIENT[0] else sorted(names) == sorted(fs)
+    return ok and all(well_formed1(classes, x, fs[f]) for f, x in p[1])
+
+
+LENIENT = [False]
+
+
+def well_formed_lenient(classes, p, t):
+    LENIENT[0] = True
+    try:
+        return well_formed(classes, p, t)
+    finally:
+        LENIENT[0] = False
 
 
 def parse_cex(text):
@@ -572,7 +587,8 @@ def oracle(case, verdict, cap=4000):
     Returns (status, failures): status in {"checked", "skipped-size", "skipped-malformed"}."""
     classes, t, pats = case["classes"], case["ty"], case["pats"]
     if not all(well_formed(classes, p, t) for p in pats):
-        return "skipped-malformed", []
+        if verdict.get("err") or not all(well_formed_lenient(classes, p, t) for p in pats):
+            return "skipped-malformed", []
     order, _ = closure(classes, t)
     inh = min_inhabitants(classes, order)
     if any(v is None for v in inh.values()):
